@@ -10,7 +10,14 @@
    parameter [golist]; its actual values are fed in by the harness.
 
    Library functions: strings.ToLower, strings.Fields are modelled for ASCII (the generator stays
-   ASCII); s[2:] on a comment text drops the two marker bytes. *)
+   ASCII); s[2:] on a comment text drops the two marker bytes.
+
+   The CURRENT code is modelled (get_import_path, set_imports).  The behaviour of the tree before
+   each repair is kept as a separate instance of the same generic definitions, for the
+   ..._before_repair_refuted witnesses: from_group_pinned (73941a1: length test == 9),
+   set_imports_start_dir (b79c739: lookup in the start directory), lit_ok_before_48f17db /
+   set_imports_before_48f17db (raw path literals not scanned), map_set / set_imports_path_keyed
+   (5f65f03: importNames keyed by the path alone). *)
 From Mage Require Import Base.Strs.
 
 (* ---------------------------------------------------------------- strings *)
